@@ -526,7 +526,13 @@ fn generate_texture_dummy_data(
         ),
     )))?;
 
-    let data = format.dummy_fill_color_bytes().repeat((width * height) as usize);
+    // (the THTX header stores these in 16 bits; check now rather than allocating a gigantic image that cannot be written)
+    for &(dim, name) in &[(width, "img_width"), (height, "img_height")] {
+        if dim > u16::MAX as u32 {
+            return Err(emitter.emit(error!("{name} {dim} is too large (for image '{entry_path}')")));
+        }
+    }
+    let data = format.dummy_fill_color_bytes().repeat(width as usize * height as usize);
     Ok(data.into())
 }
 
@@ -1145,7 +1151,7 @@ fn gather_script_ids(ast: &ast::ScriptFile, ctx: &mut CompilerContext) -> Result
         match &item.value {
             &ast::Item::Script { number, ref ident, .. } => {
                 let script_id = number.unwrap_or(sp!(ident.span => next_auto_script));
-                next_auto_script = script_id.value + 1;
+                next_auto_script = script_id.value.wrapping_add(1);
 
                 // give a better error on redefinitions than the generic "ambiguous auto const" message
                 match script_ids.entry(ident.value.clone()) {
